@@ -876,31 +876,15 @@ use proptest::test_runner::TestRng;
 
 fn tree_from_bytes<P: Property>(strategy: &BoxedStrategy<P::Case>, data: &[u8]) -> Option<Box<dyn ValueTree<Value = P::Case>>> {
     let cfg = Config { failure_persistence: None, max_local_rejects: 256, max_global_rejects: 256, ..Config::default() };
-    // proptest's pass-through stream turns into zeros once the input is used up, and rand's rejection sampling of an
-    // integer range never accepts an all-zero word (the loop in `pick_weighted` spins for ever), so the input is
-    // followed by a fixed pseudo-random tail: short inputs decode to "prefix chosen by the fuzzer, rest constant"
-    static TAIL: std::sync::OnceLock<Vec<u8>> = std::sync::OnceLock::new();
-    let tail = TAIL.get_or_init(|| {
-        let mut x = 0x9E3779B97F4A7C15u64;
-        let mut v = Vec::with_capacity(1 << 18);
-        while v.len() < (1 << 18) {
-            x = x.wrapping_add(0x9E3779B97F4A7C15);
-            let mut z = x;
-            z = (z ^ (z >> 30)).wrapping_mul(0xBF58476D1CE4E5B9);
-            z = (z ^ (z >> 27)).wrapping_mul(0x94D049BB133111EB);
-            v.extend_from_slice(&(z ^ (z >> 31)).to_le_bytes());
-        }
-        v
-    });
-    let mut stream = Vec::with_capacity(data.len() + tail.len());
-    stream.extend_from_slice(data);
-    stream.extend_from_slice(tail);
-    let rng = TestRng::from_seed(RngAlgorithm::PassThrough, &stream);
+    // The stream is proptest's pass-through RNG as patched in /verif/vendor/proptest: sibling arms of a union no longer
+    // halve the remaining data, and an exhausted input continues with a fixed pseudo-random stream instead of zeros
+    // (on which rand's integer rejection sampling never terminates).
+    let rng = TestRng::from_seed(RngAlgorithm::PassThrough, data);
     let mut runner = TestRunner::new_with_rng(cfg, rng);
     strategy.new_tree(&mut runner).ok()
 }
 
-/// Counters kept by a fuzz closure and dumped to `$VERIF_FUZZ_STATS` every 4096 inputs and at each failure.
+/// Counters kept by a fuzz closure.
 #[derive(Default, serde::Serialize)]
 pub struct FuzzStats {
     pub inputs: u64,
@@ -914,31 +898,50 @@ pub struct FuzzStats {
     pub labels: BTreeMap<String, u64>,
 }
 
+static FUZZ_STATS: Mutex<Option<(String, FuzzStats)>> = Mutex::new(None);
+
+extern "C" fn dump_fuzz_stats() {
+    if let Ok(g) = FUZZ_STATS.lock() {
+        if let Some((p, st)) = g.as_ref() {
+            let _ = std::fs::write(p, serde_json::to_string(st).unwrap());
+        }
+    }
+}
+
 /// Build the per-process fuzz closure for property P.  It returns true when the input is a violation
-/// (unknown failing signature); the fuzz target then aborts so the fuzzer keeps the input.
+/// (unknown failing signature); the fuzz target then aborts so the fuzzer keeps the input.  Counters are written to
+/// `$VERIF_FUZZ_STATS` when the process exits (and at every failure).
 pub fn make_fuzzer<P: Property>() -> Box<dyn FnMut(&[u8]) -> bool> {
     std::panic::set_hook(Box::new(|_| {}));
     let strategy = P::strategy(Tier::Quick);
     let known = load_known(P::ID);
     let _silence = if P::quiet_stdout() { Some(StdoutSilencer::new()) } else { None };
-    let stats_path = std::env::var("VERIF_FUZZ_STATS").ok();
-    let mut st = FuzzStats::default();
+    if let Ok(p) = std::env::var("VERIF_FUZZ_STATS") {
+        *FUZZ_STATS.lock().unwrap() = Some((p, FuzzStats::default()));
+        unsafe {
+            libc::atexit(dump_fuzz_stats);
+        }
+    }
     let mut seen: HashSet<u64> = HashSet::new();
     Box::new(move |data: &[u8]| {
         let _keep = &_silence;
-        st.inputs += 1;
-        let dump = |st: &FuzzStats| {
-            if let Some(p) = &stats_path {
-                let _ = std::fs::write(p, serde_json::to_string(st).unwrap());
-            }
+        let tree = tree_from_bytes::<P>(&strategy, data);
+        let verdict = tree.as_ref().map(|t| {
+            let case = t.current();
+            let v = checked::<P>(&case);
+            let fresh = matches!(&v, Verdict::Pass(p) if p.nontrivial) && seen.len() < 4_000_000 && seen.insert(hash_json(&serde_json::to_string(&case).unwrap()));
+            (v, fresh)
+        });
+        let mut g = FUZZ_STATS.lock().unwrap();
+        let mut scratch = FuzzStats::default();
+        let st = match g.as_mut() {
+            Some((_, st)) => st,
+            None => &mut scratch,
         };
-        if st.inputs % 4096 == 0 {
-            dump(&st);
-        }
-        let Some(tree) = tree_from_bytes::<P>(&strategy, data) else { return false };
+        st.inputs += 1;
+        let Some((v, fresh)) = verdict else { return false };
         st.decoded += 1;
-        let case = tree.current();
-        match checked::<P>(&case) {
+        match v {
             Verdict::Pass(p) => {
                 st.pass += 1;
                 for l in &p.labels {
@@ -946,9 +949,9 @@ pub fn make_fuzzer<P: Property>() -> Box<dyn FnMut(&[u8]) -> bool> {
                 }
                 if p.nontrivial {
                     st.nontrivial += 1;
-                    if seen.len() < 4_000_000 && seen.insert(hash_json(&serde_json::to_string(&case).unwrap())) {
-                        st.distinct_nontrivial += 1;
-                    }
+                }
+                if fresh {
+                    st.distinct_nontrivial += 1;
                 }
                 false
             }
@@ -962,7 +965,8 @@ pub fn make_fuzzer<P: Property>() -> Box<dyn FnMut(&[u8]) -> bool> {
                     false
                 } else {
                     st.failures += 1;
-                    dump(&st);
+                    drop(g);
+                    dump_fuzz_stats();
                     eprintln!("FUZZ-FAIL property={} signature={} detail={}", P::ID, f.sig, f.msg);
                     true
                 }
